@@ -277,8 +277,9 @@ ReapFiles(files, first, i, vis, lu, acc, r) ==        \* i = index into files of
 
 \* A cycle with time limit d.  Reading the .gc file costs one check per entry plus one (only when the file is not empty).  The
 \* entries are applied as one batch when the last one has been read: if a check fails before that, nothing has been
-\* marked; if the LAST check fails, everything has been marked but the set of affected files is dropped with the error
-\* (those files stay in `visited`).  In both cases the .gc file stays for the next cycle.
+\* marked; if the LAST check fails, everything has been marked and the affected files leave `visited` (before repair
+\* cb628c7 the set was dropped with the error and those files were never looked at again - found with this model, C11).
+\* In both cases the .gc file stays for the next cycle.
 PriGCd(lu, d) ==
   /\ Call([op |-> "prigc", lowUse |-> lu, deadline |-> d])
   /\ LET ho     == HandOver
@@ -294,8 +295,8 @@ PriGCd(lu, d) ==
              /\ UNCHANGED <<pfiles, pfirst, visited, plen, pnext, recFile, recPos, inext, flpool>>
         ELSE IF stopM
         THEN /\ flfile' = ho.fl /\ flgc' = [has |-> TRUE, l |-> ho.gc]
-             /\ pfiles' = marked
-             /\ UNCHANGED <<pfirst, visited, plen, pnext, recFile, recPos, inext, flpool>>
+             /\ pfiles' = marked /\ visited' = vis1
+             /\ UNCHANGED <<pfirst, plen, pnext, recFile, recPos, inext, flpool>>
         ELSE /\ pfiles' = rp.files /\ pfirst' = rp.first /\ visited' = rp.vis
              /\ flfile' = ho.fl /\ flgc' = [has |-> FALSE, l |-> <<>>]
              /\ plen' = plen
